@@ -772,10 +772,12 @@ theorem addResponse_isOk_iff (cfg : Cfg) (a : Agg) (idx : Nat) (b : Bool) :
     simp [this, h2]
 
 /-- `ProcessEncryptedDeal` answers with an approval exactly when it is the first deal, every check of
-    `VerifyDeal` passes, and the verifier's own slot is free and in range. -/
+    `VerifyDeal` passes, the verifier's own slot is free and in range, and (repaired code) the announced
+    session identifier is the one the deal's content yields. -/
 theorem processDealOn_approve_iff (cfg : Cfg) (me : Nat) (a : Agg) (d : Deal) :
     (processDealOn cfg me a d).2 = .approve ↔
-      a.deal = none ∧ checkDeal cfg (adopt cfg a d) d = none ∧ me < cfg.n ∧ a.responses.lookup me = none := by
+      a.deal = none ∧ checkDeal cfg (adopt cfg a d) d = none ∧ me < cfg.n ∧ a.responses.lookup me = none ∧
+        sidBound cfg d = true := by
   unfold processDealOn
   have hres := verifyDeal_responses cfg a d true
   have hiff := verifyDeal_snd_eq_none_iff cfg a d
@@ -795,8 +797,8 @@ theorem processDealOn_approve_iff (cfg : Cfg) (me : Nat) (a : Agg) (d : Deal) :
     · rename_i r hadd
       constructor
       · intro h; cases h
-      · rintro ⟨h1, h2, h3, h4⟩
-        have := (addResponse_isOk_iff cfg a1 me e.isNone).mpr ⟨h3, by rw [hres]; exact h4⟩
+      · rintro ⟨h1, h2, h3, h4, _⟩
+        have := (addResponse_isOk_iff cfg a1 me (e.isNone && sidBound cfg d)).mpr ⟨h3, by rw [hres]; exact h4⟩
         obtain ⟨a', ha'⟩ := this
         rw [ha'] at hadd; cases hadd
     · rename_i a2 hadd
@@ -804,11 +806,17 @@ theorem processDealOn_approve_iff (cfg : Cfg) (me : Nat) (a : Agg) (d : Deal) :
       rw [hres] at h4
       cases e with
       | none =>
-        simp only [Option.isNone_none, if_true, true_iff]
         obtain ⟨h1, h2⟩ := hiff.mp rfl
-        exact ⟨h1, h2, h3, h4⟩
+        by_cases hb : sidBound cfg d = true
+        · simp only [Option.isNone_none, hb, Bool.and_self, if_true, true_iff]
+          exact ⟨h1, h2, h3, h4, trivial⟩
+        · have hb' : sidBound cfg d = false := by simpa using hb
+          simp only [Option.isNone_none, hb', Bool.and_false, Bool.false_eq_true, if_false]
+          constructor
+          · intro h; cases h
+          · rintro ⟨_, _, _, _, h5⟩; cases h5
       | some e =>
-        simp only [Option.isNone_some, Bool.false_eq_true, if_false]
+        simp only [Option.isNone_some, Bool.false_and, Bool.false_eq_true, if_false]
         constructor
         · intro h; cases h
         · rintro ⟨h1, h2, _⟩
